@@ -122,6 +122,8 @@ class Term:
         self.ecalls = element_callables
         self.singular: list = []
         self.unknown: list = []
+        self.param_calls: list = []
+        self.fparams: set = set()
 
     def depends_on_x(self, node, depth=0) -> bool:
         for n in ast.walk(node):
@@ -226,6 +228,10 @@ class Term:
                 for a in node.args:
                     self.scan(a, depth)
                 return
+            if isinstance(node.func, ast.Name) and node.func.id in getattr(self, "fparams", ()) and node.func.id not in self.fassigns:
+                # a callable handed to the factory by its caller: what it computes is decided at the call sites
+                self.param_calls.append(node.func.id)
+                return
             # compiled element function of unknown shape: fn(x), compiled_elements[i][j](x)
             self.singular.append(f"call of compiled element function {src(node.func)[:30]}")
             return
@@ -256,6 +262,9 @@ def classify_closure(closure, factory, prog, factories):
                 if v.func.id in fact_names:
                     dcalls.add(nm)
     t = Term(closure, fassigns, dcalls, ecalls)
+    fa = factory.node.args
+    t.fparams = {a.arg for a in fa.posonlyargs + fa.args + fa.kwonlyargs}
+    closure._param_calls = t.param_calls
     rets = []
     if isinstance(closure, ast.Lambda):
         body_rets = [closure.body]
@@ -366,6 +375,11 @@ def check(prog, rep):
                 raise AnalysisError(f"{construct}: NumPy function(s) {sorted(set(unknown))} are not in the regular/singular tables")
             all_san = all(s for _r, s in rets) and bool(rets)
             ok = not singular
+            if ok and not all_san and getattr(cl, "_param_calls", None):
+                # unsanitised, and the term calls a callable that is a parameter of the factory: whether it is singular
+                # is not visible here (a table-driven factory); not decided on this view
+                rep.undecided(f"{construct}: calls the factory parameter `{cl._param_calls[0]}` and is not sanitised; whether that callable is singular depends on the factory's call sites")
+                continue
             rep.ob("R19.1", construct, ok,
                    ("sanitised on every return (singular primitives inside: " + ", ".join(sorted(set(inside))[:3]) + ")") if all_san and inside else
                    ("sanitised on every return" if all_san else "term contains only regular primitives")
